@@ -209,3 +209,39 @@ package console
 //@   loop 2 (i >= startOffset) invariant i >= startOffset - 1 && i <= len(cons.fb) - 1 && offset == rowsOf(cons, lines)*cons.pitch && startOffset == (rowsOf(cons, lines) + cons.offsetY)*cons.pitch && rowsOf(cons, lines) <= cons.height - cons.offsetY && rowsOf(cons, lines) >= 1
 //@   loop 2 invariant moved: forall(j, int, 0 <= j && j < len(cons.fb) ==> cons.fb[j] == ite(j > i, old(cons.fb[j - offset]), old(cons.fb[j])))
 //@   loop 2 inbody use cons.pitch >= 1 && offset >= cons.pitch && startOffset >= offset && i >= offset
+
+// ---- the abstract console (interface Device) as the terminal sees it (C18) --------------------
+// a W x H grid of cells; cell (x,y), 1-based, is scr[(y-1)*scrW + (x-1)], a cell value packs
+// character, foreground and background
+//@ ghost scrW uint32
+//@ ghost scrH uint32
+//@ ghost scrFg uint8
+//@ ghost scrBg uint8
+//@ ghost scr map[uint32]uint32
+//@ spec cellOf(ch uint8, fg uint8, bg uint8) uint32 = uint32(ch) + 256*uint32(fg) + 65536*uint32(bg)
+//@ spec scrIdx(x uint32, y uint32) uint32 = (y-1)*scrW + (x-1)
+
+//@ func (Device) Dimensions(dim Dimension) (w uint32, h uint32)
+//@   trusted
+//@   ensures dim == Characters ==> w == scrW && h == scrH
+
+//@ func (Device) DefaultColors() (fg uint8, bg uint8)
+//@   trusted
+//@   ensures fg == scrFg && bg == scrBg
+
+//@ func (Device) Write(ch byte, fg uint8, bg uint8, x uint32, y uint32)
+//@   trusted
+//@   modifies scr
+//@   ensures x >= 1 && x <= scrW && y >= 1 && y <= scrH ==> scr == upd(old(scr), scrIdx(x, y), cellOf(ch, fg, bg))
+//@   ensures !(x >= 1 && x <= scrW && y >= 1 && y <= scrH) ==> scr == old(scr)
+
+// one line up: every row takes the content of the row below; the last row is unspecified
+//@ func (Device) Scroll(dir ScrollDir, lines uint32)
+//@   trusted
+//@   modifies scr
+//@   ensures dir == ScrollDirUp && lines == 1 ==> forall(cx, uint32, cy, uint32, cx >= 1 && cx <= scrW && cy >= 1 && cy < scrH ==> scr[scrIdx(cx, cy)] == old(scr)[scrIdx(cx, cy + 1)])
+
+//@ func (Device) Fill(x uint32, y uint32, width uint32, height uint32, fg uint8, bg uint8)
+//@   trusted
+//@   modifies scr
+//@   ensures forall(cx, uint32, cy, uint32, cx >= 1 && cx <= scrW && cy >= 1 && cy <= scrH ==> scr[scrIdx(cx, cy)] == ite(cx >= clampOrg(x, scrW) && cx <= clipEnd(clampOrg(x, scrW), width, scrW) && cy >= clampOrg(y, scrH) && cy <= clipEnd(clampOrg(y, scrH), height, scrH), cellOf(32, fg, bg), old(scr)[scrIdx(cx, cy)]))
